@@ -7,6 +7,7 @@
 //	             support.FBP, support.TBE (captured variables assigned in workers, exits without Done)
 //	Globals.v    every package-level variable of the library packages with the functions that read / write it
 //	Narrow.v     per declaration of the library packages, the spelled-out numeric types narrower than 64 bits
+//	Structs.v    every named struct type of the library packages with its fields
 //
 // It is part of the trusted base; its tables are cross-checked at run time by the harness.
 package main
@@ -68,4 +69,5 @@ func main() {
 	writeIfChanged(filepath.Join(*out, "Pools.v"), genPools(byPath, mod, *repo))
 	writeIfChanged(filepath.Join(*out, "Globals.v"), genGlobals(pkgs, mod, *repo))
 	writeIfChanged(filepath.Join(*out, "Narrow.v"), genNarrow(pkgs, mod, *repo))
+	writeIfChanged(filepath.Join(*out, "Structs.v"), genStructs(pkgs, mod, *repo))
 }
